@@ -553,6 +553,7 @@ class World:
         self.probe_msgs: Dict[Any, dict] = {}
         self.ended: set = set()
         self.harness_ctx: Any = None
+        self.last_progress_us = 0
 
     # ---- bookkeeping
     def fired(self, kind: str, n: int = 1) -> None:
@@ -561,8 +562,10 @@ class World:
     def on_event(self, kind: str, d: Any = None) -> None:
         if kind == "cb_exit":
             self.ended.add(d)
-        if self.changed is not None and kind in _PROGRESS_KINDS:
-            self.changed.set()
+        if kind in _PROGRESS_KINDS:
+            self.last_progress_us = self.loop.now_us
+            if self.changed is not None:
+                self.changed.set()
 
     def k_of(self, task_id: str, task_name: str = "") -> Any:
         if task_id.startswith("m"):
@@ -1173,11 +1176,14 @@ async def _settle(world: World, slack_us: int) -> bool:
     while True:
         if _idle(world):
             return True
+        remaining = world.last_progress_us + slack_us - world.loop.now_us
+        if remaining <= 0:
+            return False
         world.changed.clear()
         try:
-            await asyncio.wait_for(world.changed.wait(), slack_us / 1e6)
+            await asyncio.wait_for(world.changed.wait(), remaining / 1e6)
         except asyncio.TimeoutError:
-            return _idle(world)
+            pass
 
 
 async def _main(world: World, client_fn: Any) -> None:
@@ -1231,15 +1237,19 @@ async def _main(world: World, client_fn: Any) -> None:
         if info["alive"] and not info["stopped"] and not info["returned"]:
             do_stop(world, w)
     wait_us = 2_000_000 + 2 * _longest_us(world) + int(1e6 * (cfg.get("W") or 0))
+    world.last_progress_us = world.loop.now_us
     while True:
         live = [i for i in world.workers.values() if i["alive"] and not i["returned"]]
         if not live:
             break
+        remaining = world.last_progress_us + wait_us - world.loop.now_us
+        if remaining <= 0:
+            break
         world.changed.clear()
         try:
-            await asyncio.wait_for(world.changed.wait(), wait_us / 1e6)
+            await asyncio.wait_for(world.changed.wait(), remaining / 1e6)
         except asyncio.TimeoutError:
-            break
+            pass
     for w, info in sorted(world.workers.items()):
         if info["alive"] and not info["returned"]:
             world.rec("hang", None, w=w, gen=info["gen"])
